@@ -174,6 +174,42 @@ def run(run):
                 add({"ev": "Noise", "N": N * (2 if cplx else 1), "family": family, "noise_cdb": cdb(p_), "expected_cdb": cdb(P0), "mean_ppm": mean_ppm, "verbatim": -1, "scaling": -1,
                      "shape_ok": tuple(y.shape) == shape and (y.is_complex() == cplx)}, comp, cfg)
                 run.case(tuple(sorted((k, str(v)) for k, v in cfg.items())), nontrivial=True)
+    # an AWGN channel reconfigured by assigning its parameter attribute after it has been used (the library's examples do this to sweep a
+    # noise power or an SNR over one object): the next call delivers the new value
+    for ptype, P1, P2 in (("float", 0.5, 0.125), ("tensor", torch.tensor(0.5), torch.tensor(2.0))):
+        for cplx in (False, True):
+            ch = AWGNChannel(avg_noise_power=P1)
+            shape = (1000, 1000)
+            ch(signal(cplx, 1.0, shape))
+            ch.avg_noise_power = P2
+            x = signal(cplx, 1.0, shape)
+            cfg = {"channel": "AWGNChannel", "mode": "power", "complex": cplx, "value": float(P2), "value_type": ptype, "signal_power": 1.0, "ndim": 2, "call": "after reassigning avg_noise_power"}
+            try:
+                y = ch(x)
+            except Exception as ex:
+                run.violate("AWGNChannel", "channel_raised", cfg, {"error": repr(ex)[:200]})
+                continue
+            p_, mean_ppm = measure(y - x, N * (2 if cplx else 1))
+            add({"ev": "Noise", "N": N * (2 if cplx else 1), "family": "gaussian", "noise_cdb": cdb(p_), "expected_cdb": cdb(float(P2)), "mean_ppm": mean_ppm, "verbatim": -1, "scaling": -1,
+                 "shape_ok": tuple(y.shape) == shape and (y.is_complex() == cplx)}, "AWGNChannel", cfg)
+            run.case(tuple(sorted((k, str(v)) for k, v in cfg.items())), nontrivial=True)
+    for cplx in (False, True):
+        ch = AWGNChannel(snr_db=7.0)
+        shape = (1000, 1000)
+        ch(signal(cplx, 1.0, shape))
+        ch.snr_db = 13.0
+        x = signal(cplx, 2.0, shape)
+        cfg = {"channel": "AWGNChannel", "mode": "snr", "complex": cplx, "value": 13.0, "value_type": "float", "signal_power": 2.0, "ndim": 2, "call": "after reassigning snr_db"}
+        try:
+            y = ch(x)
+        except Exception as ex:
+            run.violate("AWGNChannel", "channel_raised", cfg, {"error": repr(ex)[:200]})
+            continue
+        sp = float((x.abs().double() ** 2).mean())
+        p_, mean_ppm = measure(y - x, N * (2 if cplx else 1))
+        add({"ev": "Noise", "N": N * (2 if cplx else 1), "family": "gaussian", "noise_cdb": cdb(p_), "expected_cdb": cdb(sp) - 1300, "mean_ppm": mean_ppm, "verbatim": -1, "scaling": -1,
+             "shape_ok": tuple(y.shape) == shape and (y.is_complex() == cplx)}, "AWGNChannel", cfg)
+        run.case(tuple(sorted((k, str(v)) for k, v in cfg.items())), nontrivial=True)
     # half-precision signals through the SNR path: the noise power is still computed at full resolution
     for comp, mk, family in (("AWGNChannel", lambda v: AWGNChannel(snr_db=v), "gaussian"), ("LaplacianChannel", lambda v: LaplacianChannel(snr_db=v), "laplacian")):
         for dt in (torch.float16, torch.bfloat16):
